@@ -205,7 +205,7 @@ def one_analysis(rec, seedt, params, vary_from=None):
         by = str(rng.choice(["L", "fres"]))
         Lreq = int(rng.choice([1, 2, 7, 64, N, int(rng.integers(1, N + 1))]))
         Lreq = min(Lreq, N, 128 if cuda else N)
-        fk = str(rng.choice(["grid", "frac", "zero", "nyq", "planbin"]))
+        fk = str(rng.choice(["grid", "frac", "zero", "nyq", "planbin", "above-nyq"]))
         if fk == "grid":
             freq = fs * int(rng.integers(0, Lreq // 2 + 1)) / Lreq
         elif fk == "frac":
@@ -214,6 +214,8 @@ def one_analysis(rec, seedt, params, vary_from=None):
             freq = 0.0
         elif fk == "nyq":
             freq = fs / 2
+        elif fk == "above-nyq":
+            freq = fs * float(rng.uniform(0.5, 1.0))   # allowed (documented warning)
         else:
             freq = float(res.f[int(rng.integers(0, res.nf))])
         sdesc = {"kind": "single", "seed": list(seedt), "q": q, "by": by, "L": Lreq,
@@ -225,6 +227,8 @@ def one_analysis(rec, seedt, params, vary_from=None):
                 Lexp = Lreq
             else:
                 fres = fs / Lreq * float(rng.choice([1.0, 1.0, 1.003, 0.998]))
+                if rng.random() < 0.05:
+                    fres = fs * float(rng.choice([2.5, 10.0]))   # coarser than fs: one-sample segments
                 Lexp = max(1, int(round(fs / fres)))
                 if Lexp > N:
                     continue
